@@ -22,6 +22,7 @@ import BHS.Props.C01
 import BHS.Props.C03
 import BHS.Proofs.Fields
 import BHS.Proofs.FieldsNotify
+import BHS.Gen.CallSites
 
 set_option linter.unusedSectionVars false
 
@@ -197,5 +198,10 @@ theorem C11_fanout_history (cfg : Cfg H) (s : Store H) (hist : List (Src H)) (n 
 
 example : ingestsOf ((eventsOf exCfg [exRoot] exHist).map fun r => (([] : List Nat), Step.ingest r)) =
     eventsOf exCfg [exRoot] exHist := by decide
+
+/-- tie to the source (regenerated go/ast facts): the chain service's `Notify` is called from exactly one place,
+    `chainService.Add`, after the insert and after the insert's error return — which is what `events` models. -/
+theorem C11_notify_site :
+    Gen.notifyCallers = [("service/chain_service.go", "Add")] ∧ Gen.notifyAfterInsert = true := by decide
 
 end BHS.Props.C11
